@@ -39,6 +39,7 @@ class C04(PropBase):
         "with the independent ISO-8601 reader, number -> temporal (epoch seconds in UTC), temporal -> number, temporal -> str/bytes. "
         "Non-trivial: it follows an equal-but-differently-represented twin, an LRU eviction (capacity 1/2/8), a cache clear, or a "
         "zone switch / clock jump (also inside a parse/format pair); distinct = distinct (operation digest, pre-state signature)."
+        ' Temporal inputs of str/bytes targets include instances of user subclasses of the datetime members and pendulum instances.'
     )
     ASSUMPTIONS = ["time -> number and numeric strings into temporals are excluded as ambiguous, as in the statement",
                    "expected values come from Python's own printers/constructors (str, repr, isoformat, fromtimestamp(n, UTC), timestamp, total_seconds)"]
